@@ -47,16 +47,39 @@ def matrix_of(A, n):
 
 
 def dense_reference(family, name, dom, dual, k):
-    """Dense-mode matrix; for barycentric (dof-transformed) spaces through the localised spaces."""
-    def loc(s):
-        if s.requires_dof_transformation:
-            T = s.map_to_localised_space @ s.dof_transformation
-            return s.localised_space, np.asarray(T.todense())
-        return s, None
+    """Dense-mode matrix; for dof-transformed (barycentric) spaces T_t' A T_d with A assembled on the plain element-wise space of the
+    barycentric grid (the library refuses dense assembly on dof-transformed spaces) and T the space's own dof_transformation."""
+    import bempp_cl.api as bem
 
+    def loc(s):
+        if not s.requires_dof_transformation:
+            return s, None
+        T = np.asarray((s.map_to_localised_space @ s.dof_transformation).todense())
+        ident = s.shapeset.identifier
+        if ident == "p0_discontinuous":
+            plain = bem.function_space(s.grid, "DP", 0)
+        elif ident == "p1_discontinuous":
+            plain = bem.function_space(s.grid, "DP", 1)
+        elif ident == "rwg0":
+            plain = bem.function_space(s.grid, "RWG", 0).localised_space
+        elif ident == "snc0":
+            plain = bem.function_space(s.grid, "SNC", 0).localised_space
+        else:
+            raise RuntimeError("no plain counterpart for %s" % ident)
+        if plain.requires_dof_transformation or plain.global_dof_count != T.shape[0]:
+            raise RuntimeError("plain counterpart of %s has %d dofs, transformation has %d rows" % (ident, plain.global_dof_count, T.shape[0]))
+        return plain, T
+
+    if dom.is_barycentric or dual.is_barycentric:
+        # documented rule: as soon as one space lives on the barycentric refinement, both are taken in their barycentric representation
+        # (same functions, expressed on the refined grid), so that test and trial grids coincide and the singular part applies
+        dom, dual = dom.barycentric_representation(), dual.barycentric_representation()
     d, Td = loc(dom)
     t, Tt = loc(dual)
-    A = ops.dense(ops.boundary(family, name, d, d, t, k=k, assembler="dense"))
+    if family == "maxwell" and (Td is not None or Tt is not None):
+        A = ops.dense(ops.maxwell_raw(name, d, d, t, k, assembler="dense"))
+    else:
+        A = ops.dense(ops.boundary(family, name, d, d, t, k=k, assembler="dense"))
     if Td is not None:
         A = A @ Td
     if Tt is not None:
@@ -83,7 +106,8 @@ def space_pairs(mesh, quick, fam=None):
                 ("DP0seg-last-sw/P1sw", {"kind": "DP0", "sel": last, "swapped": (d[-1],)}, {"kind": "P1", "inc": True, "swapped": (d[-1],)})]
     if quick and fam == "laplace":
         # one dof-transformed (barycentric) pair in the quick tier: the near-field / singular correction applies dof_transformation
-        out += [("DUAL0/DUAL0", {"kind": "DUAL0", "inc": True, "trunc": False}, {"kind": "DUAL0", "inc": True, "trunc": False})]
+        out += [("DUAL0/DUAL0", {"kind": "DUAL0", "inc": True, "trunc": False}, {"kind": "DUAL0", "inc": True, "trunc": False}),
+                ("DUAL1/DP0", {"kind": "DUAL1"}, {"kind": "DP0"})]
     if not quick:
         out += [("DUAL0/DUAL0", {"kind": "DUAL0", "inc": True, "trunc": False}, {"kind": "DUAL0", "inc": True, "trunc": False}),
                 ("DUAL1/DP0", {"kind": "DUAL1"}, {"kind": "DP0"})]
